@@ -28,7 +28,7 @@ WIDTHS = [(8, 8), (8, 16), (8, 32), (8, 64), (16, 16), (16, 32), (16, 64), (32, 
 
 def configs(tier, seed):
     cfgs = []
-    aws = [1, 2, 3, 4, 6, 10] if tier == "quick" else list(range(1, 13))
+    aws = [1, 2, 3, 4, 6, 10, 17, 30] if tier == "quick" else list(range(1, 13)) + [16, 17, 24, 30, 33]
     for c, w in WIDTHS:
         for aw in aws:
             cfgs.append({"csr_dw": c, "wb_dw": w, "aw": aw})
